@@ -2445,6 +2445,10 @@ func (a *Association) handleData(chunkPayload *chunkPayloadData) []*packet {
 
 			return nil
 		}
+	} else {
+		// A duplicate: let the queue record it so that the next SACK reports it.
+		// (A TSN beyond the tracking window is ignored by push.)
+		a.payloadQueue.push(chunkPayload.tsn)
 	}
 
 	// Upon the reception of a new DATA chunk, an endpoint shall examine the
@@ -2456,7 +2460,8 @@ func (a *Association) handleData(chunkPayload *chunkPayloadData) []*packet {
 	expectedTSN := a.peerLastTSN() + 1
 	gapDetected := sna32GT(chunkPayload.tsn, expectedTSN)
 
-	sackNow := chunkPayload.immediateSack || gapDetected
+	// RFC 4960 Sec 6.2: a duplicate DATA chunk must be acknowledged without delay.
+	sackNow := chunkPayload.immediateSack || gapDetected || !canPush
 	if state == shutdownSent {
 		sackNow = true
 	}
